@@ -991,6 +991,9 @@ def run_cases(ctx: Ctx, cases, origin, tmp, wide=False):
                     a, r = evaluate(c, tmp)
                     return oracle_deviation(c, r) is not None and not any(ctx.is_open(f) for f in finding_classes(c))
 
+                if len(ctx.violations) >= 5:
+                    ctx.violation("auto_cli does not call the component with the parsed values: " + dev, {"kind": "case", "case": case})
+                    continue
                 small = shrink_case(case, still)
                 a2, r2 = evaluate(small, tmp)
                 ctx.violation("auto_cli does not call the component with the parsed values: %s" % (oracle_deviation(small, r2) or dev),
